@@ -134,6 +134,35 @@ func c03Events(b []byte, mode int, fin string) []c03Ev {
 	return evs
 }
 
+type c03Combo struct {
+	mode int
+	fin  string
+	wr   []bool
+}
+
+// every chunking x final error x write script for short inputs; the plain run plus two varied
+// runs for long ones (one-byte chunking of a 70000-byte stream 48 times over is only slow)
+func c03Combos(n int) []c03Combo {
+	wrs := [][]bool{nil, {false}, {true, false}, {true, true, true, false}}
+	fins := []string{"", "eof", "other"}
+	if n <= 64 {
+		var out []c03Combo
+		for mode := 0; mode < 4; mode++ {
+			for _, fin := range fins {
+				for _, wr := range wrs {
+					out = append(out, c03Combo{mode, fin, wr})
+				}
+			}
+		}
+		return out
+	}
+	m := 2 + n%2
+	if n <= 3000 {
+		m = 1 + n%3
+	}
+	return []c03Combo{{0, "", nil}, {m, fins[n%3], wrs[n%4]}, {3, fins[(n+1)%3], wrs[(n+2)%4]}}
+}
+
 func init() {
 	c03Register(&c03EP{
 		name: "speedtest.server",
@@ -159,18 +188,14 @@ func init() {
 		},
 		run: func(seq [][]byte) string {
 			cls := ""
-			for mode := 0; mode < 4; mode++ {
-				for _, fin := range []string{"", "eof", "other"} {
-					for _, wr := range [][]bool{nil, {false}, {true, false}, {true, true, true, false}} {
-						c := &c03SConn{evs: c03Events(append([]byte(nil), seq[0]...), mode, fin), wr: wr}
-						err := server(c)
-						if c.maxRead > chunkSize {
-							panic("server asked for more than chunkSize bytes in one Read")
-						}
-						if mode == 0 && fin == "" && wr == nil {
-							cls = c03ErrClassS(err)
-						}
-					}
+			for i, cb := range c03Combos(len(seq[0])) {
+				c := &c03SConn{evs: c03Events(append([]byte(nil), seq[0]...), cb.mode, cb.fin), wr: cb.wr}
+				err := server(c)
+				if c.maxRead > chunkSize {
+					panic("server asked for more than chunkSize bytes in one Read")
+				}
+				if i == 0 {
+					cls = c03ErrClassS(err)
 				}
 			}
 			return cls
@@ -186,8 +211,13 @@ func init() {
 		},
 		run: func(seq [][]byte) string {
 			cls := ""
-			for mode := 0; mode < 4; mode++ {
-				for _, fin := range []string{"", "eof", "other"} {
+			for ci, cb := range c03Combos(len(seq[0])) {
+				if cb.wr != nil {
+					continue
+				}
+				{
+					mode, fin := cb.mode, cb.fin
+					_ = ci
 					mk := func() *c03SConn { return &c03SConn{evs: c03Events(append([]byte(nil), seq[0]...), mode, fin)} }
 					_, _, e1 := readDownloadResponse(mk())
 					_, _, e2 := readUploadResponse(mk())
@@ -213,7 +243,11 @@ func init() {
 		},
 		run: func(seq [][]byte) string {
 			cls := ""
-			for mode := 0; mode < 3; mode++ {
+			modes := []int{0, 1, 2}
+			if len(seq[0]) > 3000 {
+				modes = []int{0, 2}
+			}
+			for _, mode := range modes {
 				for _, size := range []uint32{0, 1, 50, chunkSize + 1} {
 					cb := func(time.Duration, uint64, bool) {}
 					c1 := &Client{Conn: &c03SConn{evs: c03Events(append([]byte(nil), seq[0]...), mode, "")}}
